@@ -69,7 +69,8 @@ func ruleCarry(c *Ctx) {
 	}
 	has := func(gs []string, sub string) bool {
 		for _, g := range gs {
-			if strings.Contains(g, sub) {
+			// the guard itself, or a conjunct/negated disjunct of it — never a negation of it
+			if g == sub || (strings.Contains(g, sub) && !strings.Contains(g, "!("+sub) && !strings.HasPrefix(g, "!("+sub)) {
 				return true
 			}
 		}
@@ -118,6 +119,19 @@ func ruleCarry(c *Ctx) {
 		c.Unresolved("findStructuralIndices:loop", "buffer loop not found")
 		return
 	}
+	// the carry sentinel: stripped_index starts as "nothing carried" (^0), the value the restore guard compares with
+	carryStart := ""
+	ast.Inspect(fd.Body, func(n ast.Node) bool {
+		if as, ok := n.(*ast.AssignStmt); ok && as.Tok == token.DEFINE && len(as.Lhs) == 1 && len(as.Rhs) == 1 {
+			if id, ok := as.Lhs[0].(*ast.Ident); ok && id.Name == "stripped_index" {
+				if cv := p.ConstOf(as.Rhs[0]); cv != nil {
+					carryStart = cv.ExactString()
+				}
+			}
+		}
+		return true
+	})
+	c.Check(carryStart == "18446744073709551615", "findStructuralIndices:state:stripped_index:start", p.Pos(loop), "starts as ^uint64(0) (nothing carried)", "`stripped_index` starts at "+carryStart+" instead of ^uint64(0): the first buffer restores a carry that does not exist", "any document")
 	startVal := map[string]string{"prev_iter_ends_odd_backslash": "0", "prev_iter_inside_quote": "0", "error_mask": "0", "prev_iter_ends_pseudo_pred": "1", "carried": "0", "position": "18446744073709551615"}
 	type pst struct {
 		param string
